@@ -138,6 +138,9 @@ func runC17(c *Ctx, w *World, r *Report) {
 		if !iv.HasN || !iv.N.Eq(eL.Add(linConst(-1))) {
 			return iv, "firstDiffs is scanned up to " + iv.N.String() + ", expected i < e-1 (a range of n keys has n-1 adjacent differences)"
 		}
+		if why := fa.earlyExit(iv); why != "" {
+			return iv, "the scan over firstDiffs[s..e-2] is cut short: " + why
+		}
 		return iv, ""
 	}
 	isLenKeyS := func(v ssa.Value) bool {
